@@ -10,23 +10,23 @@ Quantifiers: every pool size, every request size in ℕ (so every `size_t` value
 size+1, `SIZE_MAX`), every pointer argument of `free`, every history of
 malloc/calloc/free/reset/user writes.
 
-Documented precondition (`OpOk`): the product `count * size` of a `calloc` fits in `size_t`
-(the library multiplies without an overflow test — see `corpus/spool/defect_calloc_overflow.ops`;
-`calloc_wraps` states what the code does otherwise), and user writes stay inside the region. -/
+Documented preconditions: the pool size is a `size_t` value (`size < 2^64`; needed so that a
+`calloc` whose product overflows `size_t` — which the library answers with NULL — also does not
+fit in the spec's sense), and user writes stay inside the region (`OpOk`). -/
 namespace CC.Properties.C12
 open CC CC.Spec
 open CC.Spec.SPool (Op)
 
 /-- precondition of one operation on a pool of `size` bytes -/
 def OpOk (size : Nat) : Op → Prop
-  | .calloc c k => c * k < sizeMod
   | .write off n _ => off + n ≤ size
   | _ => True
 
 /-- One step of the concrete model refines one step of the block-list spec: same returned
 pointer, abstraction commutes, invariant preserved, size fixed, and no checked access faults
 (the `memset` of calloc and the user's writes stay inside the region; nothing is allocated). -/
-theorem step_refines (s : StaticPool) (op : Op) (m : Mem) (h : s.Inv) (hop : OpOk s.core.size op) :
+theorem step_refines (s : StaticPool) (op : Op) (m : Mem) (h : s.Inv) (hsz : s.core.size < sizeMod)
+    (hop : OpOk s.core.size op) :
     (s.step op m).1 = (s.abs.step op).1 ∧ (s.step op m).2.1.abs = (s.abs.step op).2 ∧
     (s.step op m).2.1.Inv ∧ (s.step op m).2.1.core.size = s.core.size ∧ (s.step op m).2.2 = m := by
   have hsize : ∀ t : StaticPool, t.abs = (s.abs.step op).2 → t.core.size = s.core.size := by
@@ -47,7 +47,7 @@ theorem step_refines (s : StaticPool) (op : Op) (m : Mem) (h : s.Inv) (hop : OpO
     have hr := StaticPool.malloc_refines s n h
     exact ⟨hr.1, hr.2, StaticPool.malloc_inv s n h, hsize _ hr.2, rfl⟩
   | calloc c k =>
-    have hr := StaticPool.calloc_refines s c k m h hop
+    have hr := StaticPool.calloc_refines s c k m h hsz
     exact ⟨hr.1, hr.2, StaticPool.calloc_inv s c k m h, hsize _ hr.2, StaticPool.calloc_nofault s c k m h⟩
   | release p =>
     have hr := StaticPool.release_refines s p h
@@ -58,15 +58,15 @@ theorem step_refines (s : StaticPool) (op : Op) (m : Mem) (h : s.Inv) (hop : OpO
 /-- **C12, all histories.** From any state satisfying the invariant, every history whose operations
 respect `OpOk` returns exactly the pointers of the block-list spec and ends in a state whose
 abstraction is the spec's final state; the memory ledger is untouched and nothing faults. -/
-theorem history_refines (ops : List Op) (s : StaticPool) (m : Mem) (h : s.Inv)
+theorem history_refines (ops : List Op) (s : StaticPool) (m : Mem) (h : s.Inv) (hsz : s.core.size < sizeMod)
     (hops : ∀ op ∈ ops, OpOk s.core.size op) :
     (s.run ops m).1 = (s.abs.run ops).1 ∧ (s.run ops m).2.1.abs = (s.abs.run ops).2 ∧
     (s.run ops m).2.1.Inv ∧ (s.run ops m).2.2 = m := by
   induction ops generalizing s m with
   | nil => exact ⟨rfl, rfl, h, rfl⟩
   | cons op ops ih =>
-    obtain ⟨h1, h2, h3, h4, h5⟩ := step_refines s op m h (hops op (List.mem_cons_self ..))
-    have ih' := ih (s.step op m).2.1 (s.step op m).2.2 h3
+    obtain ⟨h1, h2, h3, h4, h5⟩ := step_refines s op m h hsz (hops op (List.mem_cons_self ..))
+    have ih' := ih (s.step op m).2.1 (s.step op m).2.2 h3 (by rw [h4]; exact hsz)
       (by intro o ho; rw [h4]; exact hops o (List.mem_cons_of_mem _ ho))
     simp only [StaticPool.run, SPool.run]
     rw [h2] at ih'
@@ -76,15 +76,15 @@ theorem history_refines (ops : List Op) (s : StaticPool) (m : Mem) (h : s.Inv)
 
 /-- **C12 from the constructor**, with the accounting functions of the public API: after any
 history on a fresh pool over a `size`-byte region, `used_bytes`/`free_bytes` are the spec's. -/
-theorem new_history_refines (size : Nat) (bytes : Buf Nat) (hb : bytes.length = size) (m : Mem)
-    (ops : List Op) (hops : ∀ op ∈ ops, OpOk size op) :
+theorem new_history_refines (size : Nat) (bytes : Buf Nat) (hb : bytes.length = size) (hsz : size < sizeMod)
+    (m : Mem) (ops : List Op) (hops : ∀ op ∈ ops, OpOk size op) :
     ((StaticPool.new size bytes).run ops m).1 = ((SPool.init size bytes).run ops).1 ∧
     ((StaticPool.new size bytes).run ops m).2.1.abs = ((SPool.init size bytes).run ops).2 ∧
     ((StaticPool.new size bytes).run ops m).2.1.core.usedBytes = ((SPool.init size bytes).run ops).2.used ∧
     ((StaticPool.new size bytes).run ops m).2.1.core.freeBytes = ((SPool.init size bytes).run ops).2.free ∧
     ((StaticPool.new size bytes).run ops m).2.2 = m := by
   have hi := StaticPool.new_inv size bytes hb
-  have := history_refines ops (StaticPool.new size bytes) m hi hops
+  have := history_refines ops (StaticPool.new size bytes) m hi hsz hops
   rw [StaticPool.new_abs] at this
   refine ⟨this.1, this.2.1, ?_, ?_, this.2.2.2⟩
   · rw [StaticPool.used_abs _ this.2.2.1, this.2.1]
@@ -252,10 +252,10 @@ theorem release_other_unchanged (s : SPool) (p : Option Nat)
 /-- reset restores the initial state (the region content is not part of the pool's state) -/
 theorem reset_is_initial (s : SPool) : s.reset = SPool.init s.size s.bytes := rfl
 
-/-- what the code does when the product of a `calloc` wraps: the request is the wrapped product -/
-theorem calloc_wraps (s : StaticPool) (c k : Nat) (m : Mem) :
-    (s.core.calloc c k m).1 = (s.core.malloc ((c * k) % 2 ^ 64)).1 := by
-  unfold SPoolCore.calloc; dsimp only; split <;> simp_all [sizeMod]
+/-- a `calloc` whose product does not fit in `size_t` returns NULL and changes nothing (the
+overflow guard in front of the multiplication) -/
+theorem calloc_overflow_null (s : StaticPool) (c k : Nat) (m : Mem) (h : 2 ^ 64 ≤ c * k) :
+    s.calloc c k m = (none, s, m) := StaticPool.calloc_overflow s c k m h
 
 /-! ## Physical inertness in the concrete model -/
 
